@@ -288,8 +288,8 @@ def run(ctx):
     cr_cfg = 'TSMEngine.MC_C39_closerace.cfg'
     cr = ctx.tlc_must_pass('TSMEngine', cr_cfg, timeout=600, dump=True, coverage=True)
     ctx.check_coverage(cr, ['WriteEnter', 'CloseTry', 'WriteFinish', 'CloseDoneReopen'])
-    chs, cstats = T.histories(ctx, cr.dump_path, want=150 if tier == 'quick' else 1200, budget_s=20 if tier == 'quick' else 300,
-                              exact_leaves=tier != 'quick')
+    chs, cstats = T.histories(ctx, cr.dump_path, want=150 if tier == 'quick' else 900, budget_s=20 if tier == 'quick' else 120,
+                              exact_leaves=False)     # (one parsing pass over the long histories in both tiers; the thorough tier replays 6x as many)
     chs = [h for h in chs if any(st['a'] == 'CloseTry' for st in h)] or chs
     T.require_actions(cstats, ['WriteEnter', 'CloseTry', 'WriteFinish', 'Reopen'])
     cc = T.cfg_constants(cr_cfg)
